@@ -88,7 +88,8 @@ Out(t) ==
          ELSE B("false")
     \* ------------------------------------------------------------------ public key bytes
     [] op = "EncPub"    -> LET a == Out(t[2]) IN
-                           W(a, <<"pubbytes", IF t[3] = "comp" THEN CompKey(a.n) ELSE a.n, t[3]>>)
+                           IF t[3] = "comp" /\ a.n[1] = "junkpub" THEN W(a, a.n[2])     \* the very bytes it was decoded from
+                           ELSE W(a, <<"pubbytes", IF t[3] = "comp" THEN CompKey(a.n) ELSE a.n, t[3]>>)
     [] op = "ManglePub" -> LET a == Out(t[2]) IN W(a, <<"bad", "pubbytes", a.n, t[3]>>)
     [] op = "DecPub"    ->
          LET a == Out(t[2])  b == a.n  c == t[3] IN
